@@ -34,7 +34,7 @@ static long vnow = 1000;	/* virtual clock for files written by the driver */
 
 /* ---- remembered per program: patch list of the last save ------------------ */
 #define MAXP 64
-static struct { char name[256]; unsigned short patch[256]; int npatch; int known; } P[MAXP];
+static struct { char name[256]; unsigned short patch[256]; int npatch; int known; int from_binary; } P[MAXP];
 static int nP = 0;
 
 static int pslot (const char *name, int create)
@@ -47,6 +47,7 @@ static int pslot (const char *name, int create)
   snprintf (P[nP].name, sizeof P[nP].name, "%s", name);
   P[nP].npatch = 0;
   P[nP].known = 0;
+  P[nP].from_binary = 0;
   return nP++;
 }
 
@@ -63,6 +64,15 @@ static void bin_path (char *out, size_t n, const char *progname)
     out[l - 1] = 'b';
 }
 
+/* Virtual times of the case language (mtime / now / the sv lines) are VH_T0 + t on the file system and in current_time,
+   so that the driver's own clock (object load times) and the files live on one time line and current_time never moves
+   backwards; everything printed is the virtual value again. */
+static int set_mtime (const char *path, long t);
+static int set_vmtime (const char *path, long t)
+{
+  return set_mtime (path, VH_T0 + t);
+}
+
 static int set_mtime (const char *path, long t)
 {
   struct timespec ts[2];
@@ -72,10 +82,14 @@ static int set_mtime (const char *path, long t)
   return utimensat (AT_FDCWD, path, ts, 0);
 }
 
+static int no_binaries = 0;	/* reference compile (reloadf): binaries are neither read nor written */
+
 program_t *load_binary (const char *name)
 {
   program_t *p;
   inherit_file = 0;
+  if (no_binaries)
+    return 0;
   p = c17_real_load_binary (name);
   if (p)
     vh_out ("lb %s use", name);
@@ -83,6 +97,18 @@ program_t *load_binary (const char *name)
     vh_out ("lb %s needs %s", name, inherit_file);
   else
     vh_out ("lb %s stale", name);
+  if (p || !inherit_file)
+    {
+      /* where the dump will find the patch list of the program that is about to be in memory: in the binary when the
+         program came from it; otherwise only a save_binary() call of the coming compile can tell (a binary that is
+         still on disk then is a leftover of an older compile) */
+      int s = pslot (name, 1);
+      if (s >= 0)
+        {
+          P[s].known = 0;
+          P[s].from_binary = p != 0;
+        }
+    }
   return p;
 }
 
@@ -90,8 +116,26 @@ void save_binary (program_t * prog, mem_block_t * includes, mem_block_t * patche
 {
   char path[512], incs[2048];
   struct stat st;
-  c17_real_save_binary (prog, includes, patches);
+  if (!no_binaries)
+    c17_real_save_binary (prog, includes, patches);
   bin_path (path, sizeof path, prog->name);
+  {
+    /* the patch list of the program just compiled (also when the master refuses the save or save_binary() declines) */
+    int s = pslot (prog->name, 1);
+    if (s >= 0)
+      {
+        int n = (int) (patches->current_size / sizeof (short));
+        if (n > 256)
+          n = 256;
+        P[s].npatch = n;
+        P[s].known = 1;
+        P[s].from_binary = 0;
+        for (int i = 0; i < n; i++)
+          P[s].patch[i] = ((unsigned short *) patches->block)[i];
+      }
+  }
+  if (no_binaries)
+    return;
   if (stat (path, &st) == 0 && st.st_mtime > REAL_T)
     {
       int s = pslot (prog->name, 1);
@@ -99,7 +143,7 @@ void save_binary (program_t * prog, mem_block_t * includes, mem_block_t * patche
       incs[0] = 0;
       for (char *q = includes->block; q && q < includes->block + includes->current_size; q += strlen (q) + 1)
         o += snprintf (incs + o, sizeof incs - o, "%s%s", o ? "," : "", q);
-      set_mtime (path, vnow);
+      set_vmtime (path, vnow);
       vh_out ("sv %s %ld inc=%s", prog->name, vnow, incs[0] ? incs : "-");
       vnow++;
       if (s >= 0)
@@ -420,9 +464,9 @@ static void dump_prog (const char *tag, program_t * p)
   /* code: string switch tables dumped entry by entry, then masked out of the hash */
   {
     int s = pslot (p->name, 0);
-    if (s < 0 || !P[s].known)
+    if (s >= 0 && !P[s].known && P[s].from_binary)
       {
-        /* not saved by this process: take the patch list from the binary, like the driver does */
+        /* loaded from its binary: take the patch list from the binary, like the driver does */
         static unsigned short tmp[256];
         int np = patches_from_binary (p->name, tmp, 256);
         if (np >= 0 && (s = pslot (p->name, 1)) >= 0)
@@ -581,6 +625,9 @@ static int sys_cmd (char *line)
       bp[strlen (bp) - 1] = 0;	/* "<bindir>/" */
       strncat (bp, d, sizeof bp - strlen (bp) - 1);
       rm_rf (bp);
+      /* and the markers with which an earlier case of this name made the master refuse saves */
+      snprintf (bp, sizeof bp, "c17/nosave/%s", d);
+      rm_rf (bp);
       cleaned = 1;
       return 1;
     }
@@ -607,13 +654,15 @@ static int sys_cmd (char *line)
   if (!strcmp (tok[0], "mtime") && n == 3)
     {
       const char *pth = rel (tok[1]);
-      if (!pth || set_mtime (pth, atol (tok[2])) == -1)
+      if (!pth || set_vmtime (pth, atol (tok[2])) == -1)
         vh_out ("mtime-error %s", tok[1]);
       return 1;
     }
   if (!strcmp (tok[0], "now") && n == 2)
     {
       vnow = atol (tok[1]);
+      if (VH_T0 + vnow > current_time)
+        current_time = VH_T0 + vnow;	/* objects loaded from now on have this load time */
       return 1;
     }
   if (!strcmp (tok[0], "intern"))
@@ -636,7 +685,7 @@ static int sys_cmd (char *line)
         safe_destruct (tok[i]);
       remove_destructed_objects ();
       init_binaries ();
-      vh_out ("restarted %llu", (unsigned long long) config_id);
+      vh_out ("restarted %llu", (unsigned long long) (config_id >= VH_T0 && config_id < REAL_T ? config_id - VH_T0 : config_id));
       return 1;
     }
   if (!strcmp (tok[0], "corrupt") && n >= 4)
@@ -723,6 +772,64 @@ static int sys_cmd (char *line)
         vh_out ("%s-nofile %s", tok[0], tok[1]);
       return 1;
     }
+  if (!strcmp (tok[0], "bindump") && n == 2)
+    {
+      /* bindump <object>: the bytes of the saved binary of a loaded program (in pieces: vh_out lines are short), then
+         what the file must hold according to the program in memory.  The model decodes the bytes with its own reader
+         (NV/C17/BinFile.lean) and must arrive at the same summary. */
+      object_t *ob = find_object_by_name (tok[1]);
+      char path[512], pn[300];
+      static unsigned char data[200000];
+      static char hex[6100];
+      FILE *f;
+      size_t size;
+      snprintf (pn, sizeof pn, "%s.c", tok[1]);
+      bin_path (path, sizeof path, pn);
+      f = fopen (path, "rb");
+      if (!ob || !ob->prog || !f)
+        {
+          vh_out ("bindump %s unavailable", tok[1]);
+          if (f)
+            fclose (f);
+          return 1;
+        }
+      size = fread (data, 1, sizeof data, f);
+      fclose (f);
+      for (size_t at = 0; at < size; at += 3000)
+        {
+          size_t o = 0;
+          for (size_t k2 = at; k2 < size && k2 < at + 3000; k2++)
+            o += snprintf (hex + o, sizeof hex - o, "%02x", data[k2]);
+          vh_out ("bin %s %s", tok[1], hex);
+        }
+      {
+        program_t *p = ob->prog;
+        char nm[700], inh[3000];
+        uint64_t hs = 0, hv = 0, hf = 0;
+        size_t o = 0;
+        hexs (nm, sizeof nm, p->name);
+        inh[0] = 0;
+        for (int i = 0; i < (int) p->num_inherited; i++)
+          {
+            char one[700];
+            hexs (one, sizeof one, p->inherit[i].prog->name);
+            o += snprintf (inh + o, sizeof inh - o, "%s%s", i ? "," : "", one);
+          }
+        /* order-independent: the names may have been sorted again since the file was written */
+        for (int i = 0; i < (int) p->num_strings; i++)
+          hs += fnv ((unsigned char *) p->strings[i], strlen (p->strings[i]));
+        for (int i = 0; i < (int) p->num_variables_defined; i++)
+          hv += fnv ((unsigned char *) p->variable_table[i], strlen (p->variable_table[i]));
+        for (int i = 0; i < (int) p->num_functions_defined; i++)
+          hf += fnv ((unsigned char *) p->function_table[i].name, strlen (p->function_table[i].name));
+        vh_out ("binsum %s size=%lu drv=%u cfg=%llu name=%s total=%d inh=%s str=%d:%llu var=%d:%llu fun=%d:%llu line=%d",
+                tok[1], (unsigned long) size, driver_id, (unsigned long long) config_id, nm, p->total_size,
+                p->num_inherited ? inh : "-", p->num_strings, (unsigned long long) hs, p->num_variables_defined,
+                (unsigned long long) hv, p->num_functions_defined, (unsigned long long) hf,
+                p->line_info ? (int) p->file_info[0] : 0);
+      }
+      return 1;
+    }
   if (!strcmp (tok[0], "badload") && n == 2)
     {
       /* load something that does not compile (the master reports the error), then go on in the same process */
@@ -740,9 +847,12 @@ static int sys_cmd (char *line)
         calls[ncalls++] = strdup (tok[i]);
       return 1;
     }
-  if ((!strcmp (tok[0], "reload") || !strcmp (tok[0], "reloadp")) && n >= 2)
+  if ((!strcmp (tok[0], "reload") || !strcmp (tok[0], "reloadp") || !strcmp (tok[0], "reloadf")) && n >= 2)
     {
-      int fresh_process = tok[0][6] == 'p';
+      /* reloadf: the reference - what the CURRENT sources compile to: the same reload in a process of its own with
+         binaries neither read nor written; nothing of it comes back but its output */
+      int reference = tok[0][6] == 'f';
+      int fresh_process = tok[0][6] == 'p' || reference;
       int report_fd = -1;
       /* reload <top> <family>...: destruct the whole family, load <top>, dump every loaded family member, run calls */
       object_t *top;
@@ -786,9 +896,11 @@ static int sys_cmd (char *line)
             }
           close (pfd[0]);
           report_fd = pfd[1];
+          no_binaries = reference;
         }
       vh_out ("begin %d", reload_no);
-      for (int i = 1; i < n; i++)
+      /* the programs named after a `|` stay loaded as they are (they are only dumped) */
+      for (int i = 1; i < n && strcmp (tok[i], "|"); i++)
         safe_destruct (tok[i]);
       remove_destructed_objects ();
       reintern ();
@@ -797,7 +909,7 @@ static int sys_cmd (char *line)
         vh_out ("loadfail %s", tok[1]);
       for (int i = 1; i < n; i++)
         {
-          object_t *ob = find_object_by_name (tok[i]);
+          object_t *ob = strcmp (tok[i], "|") ? find_object_by_name (tok[i]) : 0;
           if (ob && ob->prog)
             dump_prog (tok[i], ob->prog);
         }
@@ -870,6 +982,18 @@ static const char *kv (char **tok, int n, const char *key)
 }
 
 #define UMAX 600
+static int uq_m;
+static const char *uq_c;
+static int uq_compar (void *x, void *y)
+{
+  int a, b;
+  char r;
+  memcpy (&a, x, 4);
+  memcpy (&b, y, 4);
+  r = uq_c[a * uq_m + b];
+  return r == '-' ? -1 : r == '+' ? 1 : 0;
+}
+
 static int unit_cmd (char *line)
 {
   static char copy[70000];
@@ -1089,6 +1213,52 @@ static int unit_cmd (char *line)
         }
       return 1;
     }
+  if (!strcmp (tok[0], "uqsort"))
+    {
+      /* uqsort sz=<4|8|10> m=<domain> v=<values in 0..m-1> c=<m*m characters - 0 +, row major: compar (x, y)>
+         the real quickSort (lib/misc/qsort.c) on elements of sz bytes: an int value followed by sz-4 bytes that all
+         hold the element's original position; the comparison function is the table (it need not be an order) */
+      static long long v[UMAX];
+      int nv = csv_ints (kv (tok, n, "v"), v, UMAX);
+      int sz = atoi (kv (tok, n, "sz")), m = atoi (kv (tok, n, "m"));
+      const char *c = kv (tok, n, "c");
+      char out[8000];
+      size_t o = 0;
+      if ((sz != 4 && sz != 8 && sz != 10) || m < 1 || m > 30 || (int) strlen (c) != m * m || nv > 250)
+        return 0;
+      for (int i = 0; i < nv; i++)
+        if (v[i] < 0 || v[i] >= m)
+          return 0;
+      uq_m = m;
+      uq_c = c;
+      /* the block is exactly nv * sz bytes: ASan reports any access outside it */
+      unsigned char *blk = (unsigned char *) malloc (nv * sz ? nv * sz : 1);
+      for (int i = 0; i < nv; i++)
+        {
+          int val = (int) v[i];
+          memcpy (blk + i * sz, &val, 4);
+          memset (blk + i * sz + 4, i, sz - 4);
+        }
+      quickSort (blk, nv, sz, uq_compar);
+      out[0] = 0;
+      for (int i = 0; i < nv; i++)
+        {
+          int val, torn = 0;
+          memcpy (&val, blk + i * sz, 4);
+          for (int k2 = 5; k2 < sz; k2++)
+            if (blk[i * sz + k2] != blk[i * sz + 4])
+              torn = 1;
+          if (torn)
+            o += snprintf (out + o, sizeof out - o, "%storn", i ? "," : "");
+          else if (sz > 4)
+            o += snprintf (out + o, sizeof out - o, "%s%d:%d", i ? "," : "", val, blk[i * sz + 4]);
+          else
+            o += snprintf (out + o, sizeof out - o, "%s%d", i ? "," : "", val);
+        }
+      vh_out ("qs %s", nv ? out : "-");
+      free (blk);
+      return 1;
+    }
   if (!strcmp (tok[0], "utimes") && n == 4)
     {
       /* utimes <binary mtime> <file mtime|none> <path>: the real check_times against a real file */
@@ -1115,7 +1285,7 @@ static int c17_cmd (char *line)
 {
   if (line[0] == 'u')
     return unit_cmd (line);
-  if (!strncmp (line, "prog ", 5) || !strncmp (line, "expect ", 7))
+  if (!strncmp (line, "prog ", 5) || !strncmp (line, "expect ", 7) || !strncmp (line, "incsearch ", 10))
     return 1;			/* dependency declaration: used by the model and the judge only */
   return sys_cmd (line);
 }
